@@ -7,5 +7,5 @@ Cd "../extract/ml".
 Extraction "c06.ml"
   Model.Snep.chunks Model.Snep.client_start Model.Snep.client_script Model.Snep.start_ops
   Model.Snep.snep_server_script Model.Snep.ho_server_script
-  Model.Snep.snep_exec Model.Snep.ho_exec.
+  Model.Snep.snep_exec Model.Snep.ho_exec Model.Snep.api_run.
 Cd "../../coq".
